@@ -314,3 +314,22 @@ Qed.
 Lemma digest_long_string x : long_limit < List.length x ->
   digest_json (JStr x) = long_mark (s "$long-string") (List.length x) (str_hash x).
 Proof. intros H. cbn [digest_json]. destruct (Nat.ltb_spec long_limit (List.length x)); [reflexivity|lia]. Qed.
+
+(* ---- TS client: every failed response becomes one of the two documented classes ------------------------------- *)
+(* a 400 whose body is a JSON object with a non-empty violation list is a ValidationError carrying that list *)
+Lemma ts_client_400_violations kv v rest : assoc_json (s "violations") kv = Some (JArr (v :: rest)) ->
+  ts_client 400 (Some (JObj kv)) = TSValidation (JArr (v :: rest)).
+Proof. intros H. unfold ts_client. rewrite Z.eqb_refl, H. reflexivity. Qed.
+
+(* anything else keeps the status (and the body it was given): no failed response is dropped or re-labelled *)
+Lemma ts_client_total st body :
+  (exists v, ts_client st body = TSValidation v /\ st = 400%Z /\
+             exists kv, body = Some (JObj kv) /\ assoc_json (s "violations") kv = Some v /\ js_truthy v = true)
+  \/ ts_client st body = TSApi st body.
+Proof.
+  unfold ts_client. destruct (Z.eqb_spec st 400) as [->|Hne]; [|now right].
+  destruct body as [[| | | | |kv]|]; try now right.
+  destruct (assoc_json (s "violations") kv) as [v|] eqn:E; [|now right].
+  destruct (js_truthy v) eqn:T; [|now right].
+  left. exists v. repeat split. exists kv. repeat split; assumption.
+Qed.
